@@ -262,7 +262,57 @@ func (c *Check) Fail(rule, key string, pos token.Pos, msg string) {
 
 func (c *Check) Except(s string)  { c.excepts = append(c.excepts, s) }
 func (c *Check) Assume(s string)  { c.assume = append(c.assume, s) }
-func (c *Check) SawFunc(s string) { c.funcs[s] = true }
+func (c *Check) SawFunc(s string) {
+	c.funcs[s] = true
+	// names taken from the SSA form ("(*import/path.T).M", "import/path.F") are also recorded in the short form the
+	// per-function discipline rules select by ("pkgname.(*T).M")
+	if n := c.shortFromSSAName(s); n != "" && n != s {
+		c.funcs[n] = true
+	}
+}
+
+func (c *Check) shortFromSSAName(s string) string {
+	if c.P == nil || !strings.Contains(s, "/") {
+		return ""
+	}
+	s = strings.TrimSuffix(s, "$bound")
+	if i := strings.Index(s, "$"); i > 0 {
+		s = s[:i] // function literals belong to their enclosing function
+	}
+	recvOpen, ptr, rest := "", "", s
+	if strings.HasPrefix(s, "(") {
+		j := strings.Index(s, ")")
+		if j < 0 {
+			return ""
+		}
+		inner := s[1:j]
+		rest = s[j+1:] // ".Method"
+		if strings.HasPrefix(inner, "*") {
+			ptr = "*"
+			inner = inner[1:]
+		}
+		k := strings.LastIndex(inner, ".")
+		if k < 0 {
+			return ""
+		}
+		path, typ := inner[:k], inner[k+1:]
+		pk := c.P.ByPath[path]
+		if pk == nil || pk.Types == nil {
+			return ""
+		}
+		recvOpen = pk.Types.Name() + ".(" + ptr + typ + ")"
+		return recvOpen + rest
+	}
+	k := strings.LastIndex(rest, ".")
+	if k < 0 {
+		return ""
+	}
+	pk := c.P.ByPath[rest[:k]]
+	if pk == nil || pk.Types == nil {
+		return ""
+	}
+	return pk.Types.Name() + rest[k:]
+}
 
 // ---------------------------------------------------------------------------
 // known findings
